@@ -387,7 +387,7 @@ func extractMain(args []string) {
 			case "casebody":
 				// like `switch`, but the second component is the whole clause body (comments dropped)
 				v := switchFact(fset, fd)
-				bodies := caseBodies(fset, fd)
+				bodies := c15CaseBodies(fset, fd)
 				var rows []string
 				for i, r := range v {
 					rows = append(rows, fmt.Sprintf("([%s], %s)", joinLeanStrings(r.Labels), leanString(bodies[i])))
@@ -539,8 +539,8 @@ func switchFact(fset *token.FileSet, fd *ast.FuncDecl) []switchRow {
 	return rows
 }
 
-// caseBodies: for the first switch statement, the printed statements of every clause
-func caseBodies(fset *token.FileSet, fd *ast.FuncDecl) []string {
+// c15CaseBodies: for the first switch statement, the printed statements of every clause
+func c15CaseBodies(fset *token.FileSet, fd *ast.FuncDecl) []string {
 	var sw *ast.SwitchStmt
 	ast.Inspect(fd.Body, func(n ast.Node) bool {
 		if sw != nil {
